@@ -106,7 +106,9 @@ def generated_v(d):
     t.append("")
     t.append("(* numbers of the events that move the code position of the thread that executes them or end it:")
     t.append("   %s *)" % ", ".join("%s=%d" % c for c in d["control"]))
-    t.append("Definition control_events : list N := [%s]." % "; ".join(str(n) for _, n in d["control"] if n))
+    for name, n in d["control"]:
+        t.append("Definition ev_%s : N := %d." % (name, n))
+    t.append("Definition control_events : list N := [%s]." % "; ".join("ev_" + name for name, n in d["control"] if n))
     return "\n".join(t) + "\n"
 
 
@@ -155,6 +157,7 @@ class Gen:
 
     def __init__(self, rng, err=0.0, defects=False, size=1.0):
         self.r, self.err, self.defects, self.size = rng, err, defects, size
+        self.host = err > 0           # the error generators use the harness' host class C02Host
         self.nloop = 0
         self.nlabel = 0
         self.threads = []       # (name, nparams) declared thread labels
@@ -285,6 +288,15 @@ class Gen:
             "local.e1 = vector_length 5",
             "local.e1 = 1::2\nlocal.e1[5] = 1",
         ]
+        if self.host:
+            pool += ["local.e1 = local.h.c02bad", "local.e1 = local.h.c02wo", "local.h.c02ro = 1", "local.h.c02bads = 2",
+                     "local.h.c02bad[1] = 2", "local.h c02fail", "local.e1 = local.h c02failret", "local.h.c02ok = 4",
+                     "local.e1 = local.h.c02ok + local.h.c02ro", "local.h.c02wo = 3", "local.e1 = local.h.c02bads",
+                     "self.c02ro = 1", "self.c02bads = 2", "local.e1 = self.c02bad", "local.e1 = self.c02wo", "self.c02ok = 1",
+                     "local.h.c02wo[1] = 2", "local.e1 = (local.h.c02bad + 1) * 2", "println local.h.c02bad local.h.c02ok",
+                     "local.h.c02ro++", "local.h.c02bads += 1", "local.e1 = local.h.c02wo[2]",
+                     "local.e6 = local\nlocal.e6.classname = 5", "local.classname = 5", "level.classname = \"x\"",
+                     "self.sd = 1\nlocal.e1 = self.sd", "local.e5 = 5\nlocal.e5.f[1] = 2"]
         if self.defects:
             pool += ["self.sd = 1\nlocal.e1 = self.sd",              # OP_LOAD_STORE_SELF_VAR, self NULL
                      "local.e5 = 5\nlocal.e5.f[1] = 2",               # OP_STORE_FIELD_REF on a non-listener
@@ -428,7 +440,8 @@ class Gen:
             self.nlabel += 1
             body = body + ["-priv%d:" % self.nlabel] + self.block(1, False, 1)
         tail = self.r.choice(["end", "end", "end %s" % self.expr(2), ""])
-        return [hdr] + ["  " + l for l in body] + ([tail] if tail else [])
+        # a private label must start its line: the lexer reads " -name" as a unary minus
+        return [hdr] + [l if l.startswith("-priv") else "  " + l for l in body] + ([tail] if tail else [])
 
     def program(self):
         r = self.r
@@ -437,6 +450,11 @@ class Gen:
         n = max(1, int(r.choice([2, 3, 4, 6, 8]) * self.size))
         allthreads = list(self.threads)
         lines = self.thread_body("main", 0, n)
+        if self.host:
+            lines[1:1] = ["  local.h = spawn C02Host"]
+            if allthreads and r.random() < 0.6:
+                lines[2:2] = ["  local.h thread %s %s" % (allthreads[0][0], " ".join("1" for _ in range(allthreads[0][1])))]
+                self.feat.add("thread-with-self")
         for i, (name, np_) in enumerate(allthreads):
             self.threads = allthreads[i + 1:]           # a thread only starts later ones: no unbounded recursion
             lines += self.thread_body(name, np_, max(1, int(r.choice([1, 2, 3]) * self.size)))
@@ -494,3 +512,262 @@ def gen_programs(tier, seed, defects=False):
             progs.append(p)
             k += 1
     return progs
+
+
+# -------------------------------------------------------------------------------- pipeline
+
+def parse_dump(lines):
+    """lines of one harness case -> dict or None when the compiler rejected the program"""
+    d = {"switch": [], "entries": {0}, "catch": []}
+    for l in lines:
+        if not l.startswith("m "):
+            continue
+        w = l[2:].split()
+        if w[0] == "compile":
+            d["compiled"] = w[1] == "ok"
+            d["compile_msg"] = l[2:][:300]
+        elif w[0] == "prog":
+            d["prog"] = [int(x) for x in w[1:6]]
+        elif w[0] == "code":
+            d["code"] = w[1]
+        elif w[0] == "labels":
+            d["entries"] |= {int(x) for x in w[1].split(",") if x != "-"}
+        elif w[0] == "switch":
+            offs = [int(x) for x in w[2].split(",") if x != "-"]
+            d["switch"].append((int(w[1]), offs))
+            d["entries"] |= set(offs)
+        elif w[0] == "catch":
+            offs = [int(x) for x in w[3].split(",") if x != "-"]
+            d["catch"].append((int(w[1]), int(w[2]), offs))
+            d["entries"] |= set(offs)
+        elif w[0] == "run":
+            d["run"] = dict(kv.split("=", 1) for kv in w[1:])
+        elif w[0] == "t":
+            d["trace"] = w[1:]
+        elif w[0] == "e":
+            d["ends"] = w[1:]
+    return d
+
+
+def driver_text(cid, d):
+    t = ["case %s" % cid, "prog %s" % " ".join(str(x) for x in d["prog"]), "code %s" % d["code"],
+         "entries %s" % ",".join(str(x) for x in sorted(d["entries"]))]
+    for a, offs in d["switch"]:
+        t.append("switch %d %s" % (a, ",".join(str(x) for x in offs) or "-"))
+    if "trace" in d:
+        t.append("trace " + " ".join(d["trace"]))
+        t.append("ends " + " ".join(d.get("ends", [])))
+    t.append("end")
+    return "\n".join(t) + "\n"
+
+
+def evaluate(progs, frames=6):
+    """run the programs through the real compiler + VM and the extracted verifier.
+    -> {id: record(status, kind, why, ...)}; status in compile-fail | ok | violation"""
+    exe = harness()
+    drv = vlib.ocaml_driver(UNIT)
+    recs = {}
+    for i in range(0, len(progs), 2500):
+        chunk = progs[i:i + 2500]
+        outs, crashes = vlib.run_resilient(exe, [str(frames)], [p.case() for p in chunk], env=vlib.ASAN_ENV, timeout=900, max_crashes=12)
+        dtext = []
+        dumps = {}
+        for p in chunk:
+            if p.id in crashes:
+                c = crashes[p.id]
+                if c.get("skipped"):
+                    recs[p.id] = {"status": "skipped"}
+                else:
+                    recs[p.id] = {"status": "violation", "kind": "timeout" if c.get("timeout") else "crash",
+                                  "why": "the harness %s while compiling or running the program: rc=%s\n%s" % (
+                                      "hung" if c.get("timeout") else "crashed", c.get("rc"), vlib._err_head(c.get("stderr", ""))),
+                                  "partial": c.get("partial")}
+                continue
+            if p.id not in outs:
+                recs[p.id] = {"status": "skipped"}
+                continue
+            d = parse_dump(outs[p.id])
+            if not d.get("compiled"):
+                recs[p.id] = {"status": "compile-fail", "msg": d.get("compile_msg", "")}
+                continue
+            if "prog" not in d or "code" not in d:
+                recs[p.id] = {"status": "violation", "kind": "dump-incomplete", "why": "harness printed no program dump"}
+                continue
+            dumps[p.id] = d
+            dtext.append(driver_text(p.id, d))
+        rc, o, e = vlib.sh([drv], inp="".join(dtext), timeout=900)
+        vouts, _ = vlib.split_output(o)
+        for pid, d in dumps.items():
+            vo = vouts.get(pid)
+            if not vo or vo[-1] != "end":
+                recs[pid] = {"status": "violation", "kind": "verifier-crash", "why": "the extracted verifier printed no verdict: rc=%s %s" % (rc, e[-500:])}
+                continue
+            r = {"status": "ok", "dump": d}
+            for l in vo:
+                w = l.split()
+                if w[0] == "v":
+                    r["verdict"] = l[2:]
+                elif w[0] == "a":
+                    kv = dict(x.split("=", 1) for x in w[1:])
+                    r["annotated"] = int(kv["annotated"])
+                    r["maxht"] = int(kv["maxht"])
+                    r["ops"] = [int(x) for x in kv["ops"].split(",") if x != "-"]
+                elif w[0] == "d":
+                    r["dynamic"] = l[2:]
+            run = d.get("run", {})
+            r["warnings"] = int(run.get("warnings", 0))
+            r["steps"] = int(run.get("steps", 0))
+            if r.get("verdict") != "ok":
+                m = re.search(r"pc=(-?\d+)", r.get("verdict", ""))
+                r.update(status="violation", kind="verifier-reject", offset=int(m.group(1)) if m else None,
+                         why="the compiler accepted the program but the verified checker rejects its code: " + r.get("verdict", "?"))
+            elif "run" in d and run.get("abort", "-") != "-":
+                r.update(status="violation", kind="abort", why="an abort exception escaped to the host while the program ran: " + run["abort"])
+            elif "run" in d and (run.get("foreign", "0") != "0" or run.get("sizemismatch", "0") != "0"):
+                r.update(status="violation", kind="dynamic-mismatch", why="probe: a VM of another program or a stack size other than the declared one: %s" % run)
+            elif "dynamic" in r and not r["dynamic"].startswith("ok"):
+                r.update(status="violation", kind="dynamic-mismatch",
+                         why="an executed instruction is not where / at the height the verified annotation says, or a VM ended with a non-empty stack: " + r["dynamic"][:600])
+            recs[pid] = r
+    return recs
+
+
+def signature(rec):
+    return rec.get("kind", "?")
+
+
+def shrink(prog, kind, frames):
+    def fails(lines):
+        r = evaluate([Prog("s", lines, "shrink")], frames).get("s", {})
+        return r.get("status") == "violation" and r.get("kind") == kind
+    try:
+        return vlib.ddmin(prog.lines, fails, max_runs=120)
+    except Exception:
+        return prog.lines
+
+
+def defects_on():
+    return os.environ.get("VERIF_C02_DEFECTS", "") not in ("", "0")
+
+
+def check(res, tier, seed):
+    res.cov["rule"] += (
+        "C02: corpus/C02/*.scr (formerly failing inputs) + fixed programs + seeded grammar-based programs (assignments to local/level/game/group/parm "
+        "variables, fields and (nested) array elements, compound assignment, ++/--, 18 binary and 3 unary operators, literals of every integer "
+        "width, floats, strings, NIL/NULL, vectors, const arrays, makeArray, $targets, .size, value-returning commands, if/else, for/while/do with "
+        "break/continue, switch with integer/negative/string cases, fall-through and default, nested switches and loops, forward goto, private "
+        "labels, try/catch with parameters, several catch labels and nested try, throw, thread/waitthread as statement, method and expression, "
+        "labels with parameters, end with and without value, wait/waitframe); the 'errors' origins inject statements that raise script errors at "
+        "run time (division by zero, type errors, NULL/NIL receivers, non-listener field access, NULL self, unknown labels, `error`, failing / "
+        "read-only / write-only fields and failing commands of the host class C02Host). Every program the REAL compiler accepts is dumped "
+        "(code, label/case/catch tables, declared stack size) and must be accepted by the extracted verifier; it is then run and every executed "
+        "(offset, stack index, marked) must be the annotated one, every VM must end with index 0 and no abort may reach the host. "
+        "distinct_nontrivial = distinct code buffers with >= 10 reachable instructions that were verified and run. ")
+    res.assumptions += [
+        "the theorems are about the instruction model coq/C02/Model.v (hand-written after ScriptVM::Process); that the model is the interpreter is sampled: every executed (offset, stack index) of every generated program is compared with the verified annotation",
+        "programs come from this unit's own grammar-based generator (the generators of C01/C03/C04 are not imported)",
+        "commands other than end/goto/throw/delaythrow/delete/remove/immediateremove/killclass/removeclass are assumed not to move the code position of the executing thread (sampled by the probe); a throw delivered to ANOTHER thread that is suspended inside an expression is outside the model",
+        "OP_FUNC is modelled but never emitted by the current compiler (its emitter code is unreachable), so it is not sampled",
+        "the error-path table (Model.err_table) is read off the hand-written catch blocks; it is sampled by the 'errors' origins only",
+        "host 64-bit little-endian; operand sizes, opcode numbers and event numbers are those of the binary built from the current tree (Generated.v)",
+    ]
+    frames = 6
+    tie_broken = None
+    table = None
+    try:
+        table = make_generated()
+        res.cov["generated"] = {"opcodes": len(table["ops"]), "OP_MAX": table["opmax"], "control_events": table["control"],
+                                "sizes": table["sizes"]}
+    except (BrokenTie, OSError) as ex:
+        tie_broken = str(ex)
+    pst = vlib.proof_stage(res, UNIT, extra_targets=["%s/Extract.vo" % UNIT], dirs=["Base", UNIT])
+    if tie_broken or not pst["ok"]:
+        res.violation({"property": CID, "kind": "proof-broken",
+                       "broken": tie_broken or "Coq build of C02/Properties.vo (the regenerated opcode table no longer matches the instruction model, or a proof no longer checks)",
+                       "hygiene": pst.get("hygiene"), "log": pst.get("build_log", "")[-3000:] + str(pst.get("props", {}).get("log", ""))[-3000:]},
+                      no_input=True)
+        return
+    # which table entries differ from the model (all must be in the allowed list: theorem table_matches_decode)
+    rc, o, e = vlib.sh([vlib.ocaml_driver(UNIT), "tablecheck"], timeout=60)
+    names = {n: en for n, en, *_ in table["ops"]}
+    res.cov["table_entries_differing_from_interpreter"] = sorted(names.get(int(l.split()[1]), l.split()[1]) for l in o.splitlines() if l.startswith("mismatch"))
+
+    progs = gen_programs(tier, seed, defects_on())
+    recs = evaluate(progs, frames)
+    by_origin = {}
+    ops_seen, feats, codes = set(), {}, set()
+    nontriv = 0
+    bad = []
+    for p in progs:
+        r = recs.get(p.id, {"status": "skipped"})
+        o = by_origin.setdefault(p.origin, {"generated": 0, "accepted": 0, "verified_and_run": 0, "with_script_errors": 0,
+                                            "script_errors": 0, "instructions_annotated": 0, "instructions_executed": 0})
+        o["generated"] += 1
+        if r["status"] in ("ok", "violation") and "dump" in r:
+            o["accepted"] += 1
+        if r["status"] == "ok":
+            o["verified_and_run"] += 1
+            o["with_script_errors"] += 1 if r["warnings"] else 0
+            o["script_errors"] += r["warnings"]
+            o["instructions_annotated"] += r.get("annotated", 0)
+            o["instructions_executed"] += r.get("steps", 0)
+            ops_seen |= set(r.get("ops", []))
+            for f in getattr(p, "feat", ()):
+                feats[f] = feats.get(f, 0) + 1
+            h = r["dump"]["code"]
+            if h not in codes:
+                codes.add(h)
+                if r.get("annotated", 0) >= 10:
+                    nontriv += 1
+        elif r["status"] == "violation":
+            bad.append((p, r))
+    res.cov["evaluations"] += sum(o["accepted"] for o in by_origin.values())
+    res.cov["distinct_nontrivial"] += nontriv
+    res.cov["input_distribution"] = by_origin
+    res.cov["opcodes_reached"] = sorted(names.get(x, str(x)) for x in ops_seen)
+    res.cov["opcodes_never_reached"] = sorted(en for n, en, *_ in table["ops"] if n not in ops_seen)
+    res.cov["features_in_verified_programs"] = dict(sorted(feats.items()))
+    res.cov["max_height_seen"] = max([r.get("maxht", 0) for r in recs.values() if r.get("status") == "ok"] or [0])
+    res.cov["samples"] += [{"origin": p.origin, "source": p.lines[:40]} for p in (progs[2:3] + progs[len(FIXED) + 5:len(FIXED) + 6] + progs[-1:])]
+
+    # informational: the formerly defective error paths (fixed in /repo; regression inputs live in corpus/C02)
+    probes = {}
+    pr = evaluate([Prog("d_" + k, v[0], "defect-probe") for k, v in DEFECT_PROBES.items()], frames)
+    for k, v in DEFECT_PROBES.items():
+        r = pr.get("d_" + k, {})
+        probes[k] = "reproduces: " + r.get("why", "")[:200] if r.get("status") == "violation" else "does not reproduce (fixed)"
+    res.cov["former_error_path_defects"] = probes
+
+    reported = set()
+    for p, r in bad:
+        if r["kind"] in reported:
+            continue
+        reported.add(r["kind"])
+        lines = shrink(p, r["kind"], frames) if len(p.lines) <= 400 else p.lines
+        rr = evaluate([Prog("r", lines, "shrunk")], frames).get("r", r)
+        if rr.get("status") != "violation":
+            lines, rr = p.lines, r
+        rec = {"property": CID, "kind": rr["kind"], "why": rr["why"], "source": lines, "origin": p.origin, "seed": seed, "frames": frames,
+               "offending_offset": rr.get("offset"), "verdict": rr.get("verdict"), "dynamic": rr.get("dynamic"),
+               "code": rr.get("dump", {}).get("code"), "signature": signature(rr), "replay_cmd": "./check C02 --replay <this file>"}
+        known = [f for f in vlib.known_findings(CID) if f.get("signature") and f["signature"] == rec["signature"]]
+        if known:
+            res.known_finding(known[0].get("what", rec["signature"]))
+        else:
+            res.violation(rec)
+
+
+def replay(path):
+    rec = json.load(open(path))
+    if "source" not in rec:
+        print("replay file names a broken obligation, not an input: %s" % rec.get("broken"))
+        return 1
+    make_generated()
+    ok, log = vlib.coq_make(["%s/Extract.vo" % UNIT])
+    r = evaluate([Prog("r", rec["source"], "replay")], rec.get("frames", 6)).get("r", {})
+    print("status:", r.get("status"), "verdict:", r.get("verdict"), "dynamic:", (r.get("dynamic") or "")[:300])
+    if r.get("status") == "violation":
+        print("REPLAY FAILS: %s: %s" % (r.get("kind"), r.get("why")))
+        return 1
+    print("REPLAY PASSES (no violation on the current tree)")
+    return 0
